@@ -7,7 +7,7 @@ Engine `local`: line protocol for C17 (`Counter`, `LocalWaker`) and C16 (`local_
 case <name> counter <cap> [probe]   acquire h | drop g | dropP g | avail h w | clone h | total h | dropH h | dbg h | dbgG g
 case <name> lw [default]      reg w | wake | take | dbg
 case <name> chan              send i x | ssend i x | clone i | dropS i | dropSP i | close i | poll w | recv w | recvNew w |
-                              recvDrop | rsender | dropR | dropRP | sready i w | sflush i w | sclose i w | dbgS i | dbgR
+                              recvDrop | rsender | dropR | dropRP | b <op> | clonefrom <a|b> i <a|b> j | sready i w | sflush i w | sclose i w | dbgS i | dbgR
 ```
 Every answer ends in ` woke=<ids>`: the counting wakers (ids `0..3`) woken by this operation, `-` if
 none.  Operations that do not apply (unknown / dropped handle, guard, sender, waker id ≥ 4, receiver
@@ -17,6 +17,10 @@ already dropped, wrong engine) answer `bad-op` and leave the state unchanged.
 panic that is then caught: for the model a drop is a drop.  `avail h w` with `w = 4, 5` registers an
 inline-polling waker: when a guard drop wakes it, the woken task reads `total()` and asks `available`
 from inside `wake()`; the drop then answers `dropped saw=<total>,<available> woke=<w>`.
+
+A `chan` case holds two channels (`Chan.Pair`): `b <op>` addresses the second one, `clonefrom a i b j` is
+`a.senders[i].clone_from(&b.senders[j])` (answer `sender <new id in the channel of j>`, `woke` = the
+wake-up caused by the drop of the handle's old value).
 
 `recv w` polls the pending `recv()` future (a fresh one if none is pending), `recvNew w` drops a pending
 one first; the future has no state, so both are `Chan.Op.poll .recv w` here.  `dbg` of a `LocalWaker`
@@ -29,7 +33,7 @@ inductive State where
   | idle
   | counter (s : Counter.Sys)
   | lw (l : LocalWaker)
-  | chan (c : Chan.Chan)
+  | chan (p : Chan.Pair)
 
 def init : State := .idle
 
@@ -151,6 +155,25 @@ def chanOp : List String → Option Chan.Op
   | ["dropRP"] => some .dropReceiver
   | _ => none
 
+def sideOf : String → Option Chan.Side
+  | "a" => some .a
+  | "b" => some .b
+  | _ => none
+
+/-- `b <op>` goes to the second channel of the case, `clonefrom <a|b> i <a|b> j`, anything else to the first -/
+def pairOp : List String → Option Chan.POp
+  | "b" :: rest => (chanOp rest).map (.on .b)
+  | ["clonefrom", ci, i, cj, j] => match sideOf ci, num i, sideOf cj, num j with
+    | some si, some i, some sj, some j => some (.cloneFrom si i sj j)
+    | _, _, _, _ => none
+  | ws => (chanOp ws).map (.on .a)
+
+def pairObs : Chan.POp → List Chan.Obs → String
+  | .on _ op, [o] => chanObs op o
+  -- the old value of the handle is dropped (that may wake), the handle is a new sender of the source's channel
+  | .cloneFrom _ _ _ _, [o1, .sender id] => s!"sender {id}" ++ wokeStr o1.woke
+  | _, _ => "?"
+
 def step (st : State) (line : String) : State × String :=
   match words line with
   | ["case", _, "counter", cap] => match num cap with
@@ -162,7 +185,7 @@ def step (st : State) (line : String) : State × String :=
     | none => (.idle, "bad-op")
   | ["case", _, "lw"] => (.lw {}, "ok")
   | ["case", _, "lw", "default"] => (.lw {}, "ok")
-  | ["case", _, "chan"] => (.chan Chan.init, "ok")
+  | ["case", _, "chan"] => (.chan {}, "ok")
   | "case" :: _ => (.idle, "bad-op")
   | ws =>
     match st with
@@ -175,10 +198,10 @@ def step (st : State) (line : String) : State × String :=
     | .lw l => match lwOp ws with
       | none => if ws = ["dbg"] then (st, "dbg LocalWaker" ++ wokeStr none) else (st, "bad-op")
       | some op => (.lw (LocalWaker.step l op).1, lwObs (LocalWaker.step l op).2)
-    | .chan c => match chanOp ws with
+    | .chan p => match pairOp ws with
       | none => (st, "bad-op")
-      | some op => match Chan.step c op with
+      | some pop => match Chan.Pair.step p pop with
         | none => (st, "bad-op")
-        | some (c', o) => (.chan c', chanObs op o)
+        | some (p', os) => (.chan p', pairObs pop os)
 
 end Driver.Local
